@@ -19,6 +19,9 @@ pub async fn download_object(
     );
     let path = format!("https://{bucket}.s3.amazonaws.com/{key}");
 
+    #[cfg(feature = "verif-hooks")]
+    let path = crate::aws::s3::verif_hooks::rewrite_url(path);
+
     let response = reqwest::get(path).await.map_err(S3GetObjectRequestError)?;
     trace!(
         "  Object \"{}\" download response status: {}",
